@@ -1326,6 +1326,9 @@ func buildQueryProfile(s *Sim, r *rand.Rand, p *ProfileParams, arm func(string, 
 	if r.IntN(3) == 0 {
 		p.Faults["reset"] = true
 	}
+	if r.IntN(3) == 0 {
+		p.Faults["reaccess"] = true
+	}
 	p.Strict = false
 	p.SvcOps = 8 + r.IntN(30)
 	buildCoreWorld(s, r, 2+r.IntN(3))
@@ -1373,6 +1376,13 @@ func genQuerySvcOp(s *Sim) (Decision, bool) {
 	}
 	if x < 0.55 && s.Cfg.P.fault("reset") {
 		return genResetSvcOp(s)
+	}
+	if x < 0.62 && s.Cfg.P.fault("reaccess") {
+		for _, n := range s.W.Names {
+			if s.W.Res[n].IsQuery && s.W.eventSubscribed(n) {
+				return svcDecision(&SvcOp{Op: "qreaccess", Name: n}), true
+			}
+		}
 	}
 	return Decision{}, false
 }
